@@ -546,7 +546,7 @@ fn builder_json<T: StShape>(b: &GenericPurlBuilder<T>) -> Value {
 }
 
 /// Apply one op (a tuple <<name, args..>> of the spec) through the public builder method.
-fn apply_op<T: StShape>(b: GenericPurlBuilder<T>, op: &Value) -> Result<GenericPurlBuilder<T>, purl::ParseError> {
+pub fn apply_op<T: StShape>(b: GenericPurlBuilder<T>, op: &Value) -> Result<GenericPurlBuilder<T>, purl::ParseError> {
     use purl::qualifiers::well_known::{Checksum, RepositoryUrl};
     let name = op[0].as_str().unwrap_or("");
     let a1 = if name == "try_with_typed_checksum" { String::new() } else { from_cps(&op[1]) };
